@@ -6,8 +6,15 @@ type Seq uint64
 
 var seq uint64
 
+// Set raises the counter to s if it is lower, so that numbers handed out
+// afterwards are greater than every number persisted by any opened database.
 func Set(s Seq) {
-	atomic.CompareAndSwapUint64(&seq, 0, uint64(s))
+	for {
+		cur := atomic.LoadUint64(&seq)
+		if cur >= uint64(s) || atomic.CompareAndSwapUint64(&seq, cur, uint64(s)) {
+			return
+		}
+	}
 }
 
 func Next() Seq {
